@@ -264,6 +264,9 @@ func corsBody(cc corsCfg, reqOrigin, method string) vsched.Body {
 		pc := &PollClient{W: w, EIO: 4, Hdr: hdr}
 		var r *Resp
 		switch method {
+		case "GET-preset-vary":
+			// an outer handler has already set Vary: Accept-Encoding on the response
+			r = w.Request("GET", pc.url(false), ReqOpt{Hdr: hdr, RespHdr: map[string]string{"Vary": "Accept-Encoding"}})
 		case "GET":
 			r = pc.Get()
 		case "POST", "POLL":
@@ -293,7 +296,7 @@ func corsBody(cc corsCfg, reqOrigin, method string) vsched.Body {
 			r = w.Request("OPTIONS", "/engine.io/?EIO=4&transport=polling", ReqOpt{Hdr: hh})
 		}
 		socksBefore := len(w.Socks)
-		if method == "GET" || method == "OPTIONS" {
+		if method == "GET" || method == "OPTIONS" || method == "GET-preset-vary" {
 			socksBefore = 0
 		}
 		x.Settle()
@@ -310,6 +313,18 @@ func corsBody(cc corsCfg, reqOrigin, method string) vsched.Body {
 			star = true
 		}
 		cls := fmt.Sprintf("[origin-option=%s request-origin=%s %s]", cc.originName, map[string]string{"": "absent", goodOrigin: "allowed", otherOrigin: "other"}[reqOrigin], method)
+		if method == "OPTIONS" && cc.headers == nil {
+			// the allowed headers are reflected from the request: the response depends on that header too
+			varyACRH := false
+			for _, v := range r.Hdr.Values("Vary") {
+				if strings.Contains(v, "Access-Control-Request-Headers") {
+					varyACRH = true
+				}
+			}
+			if !varyACRH && !cc.cont {
+				x.Fail("cors-vary-request-headers%s: Access-Control-Allow-Headers reflects the request but Vary is %q (%s)", cls, r.Hdr.Values("Vary"), id)
+			}
+		}
 		if acao == "*" && !star {
 			x.Fail("cors-wildcard%s: Access-Control-Allow-Origin: * with a restrictive policy (%s)", cls, id)
 		}
@@ -335,6 +350,17 @@ func corsBody(cc corsCfg, reqOrigin, method string) vsched.Body {
 					if strings.EqualFold(strings.TrimSpace(tok), "Origin") {
 						vary = true
 					}
+				}
+			}
+			if method == "GET-preset-vary" {
+				kept := false
+				for _, v := range r.Hdr.Values("Vary") {
+					if strings.Contains(v, "Accept-Encoding") {
+						kept = true
+					}
+				}
+				if !kept {
+					x.Fail("cors-vary-lost%s: the Vary field set by an outer handler was dropped: %q (%s)", cls, r.Hdr.Values("Vary"), id)
 				}
 			}
 			if !vary {
@@ -383,7 +409,7 @@ func corsBody(cc corsCfg, reqOrigin, method string) vsched.Body {
 			if !r.Returned {
 				x.Fail("cors-preflight-blocked%s: handler did not return (%s)", cls, id)
 			}
-		} else if len(w.Socks) != socksBefore+b2i(method == "GET") {
+		} else if len(w.Socks) != socksBefore+b2i(method == "GET" || method == "GET-preset-vary") {
 			x.Fail("cors-sessions%s: %d sessions (%s)", cls, len(w.Socks), id)
 		}
 		x.Outcome = fmt.Sprintf("%d acao=%q", r.Code, acao)
@@ -433,7 +459,7 @@ func init() {
 								}
 								cc := corsCfg{og.name, og.v, cred, methods, headers, cont, status}
 								for _, ro := range []string{"", goodOrigin, otherOrigin} {
-									for _, m := range []string{"GET", "POST", "POLL", "OPTIONS"} {
+									for _, m := range []string{"GET", "GET-preset-vary", "POST", "POLL", "OPTIONS"} {
 										if m != "OPTIONS" && (mi+hi > 0 || status != 0) {
 											continue // preflight-only options
 										}
@@ -453,5 +479,25 @@ func init() {
 		}
 		c.Res.Distinct = int64(n)
 		c.Note("CORS option shapes (origin unset/'*'/fixed/list/list with regexp/regexp/true/false; credentials; methods and allowed headers as nil/string/list; preflightContinue; success status) x request origin {absent, allowed, other} x {handshake GET, data POST, compressed poll, preflight OPTIONS}; reference policy decides whether the response may name the origin")
+	})
+}
+
+// the handshake response under every interleaving of the handler with the goroutine that
+// writes the response (C17: cookie and events on exactly that response)
+func init() {
+	register("C17", "handshake-interleavings", false, func(c *Ctx) {
+		n := 0
+		for _, cc := range cookieCfgs()[1:] {
+			for _, eio := range []int{4, 3} {
+				for _, jsonp := range []bool{false, true} {
+					cc, eio, jsonp := cc, eio, jsonp
+					n++
+					id := fmt.Sprintf("handshake cookie=%s eio=%d jsonp=%v", cc.name, eio, jsonp)
+					c.ExploreDev(id, Pick(c, 1, 2), Pick(c, 3, 5), cookieBody(cc, []string{"H"}, eio, jsonp))
+				}
+			}
+		}
+		c.Res.Distinct = int64(n)
+		c.Note("one polling handshake per cookie configuration x revision x JSONP, every interleaving of the handler and the send goroutine that writes the handshake response (<=%d preemptions): Set-Cookie with the session id, initial_headers and headers exactly once on that response", Pick(c, 1, 2))
 	})
 }
